@@ -10,7 +10,7 @@ for p in props:
     pid = p["id"]
     d = os.path.join(V, "props", pid)
     me = os.path.join(d, "manifest_entry.json")
-    if os.path.exists(me) and os.path.exists(os.path.join(d, "run.py")) and not os.path.exists(os.path.join(d, "DISABLED")):
+    if os.path.exists(me) and os.path.exists(os.path.join(d, "run.py")) and os.path.exists(os.path.join(d, "READY")):
         e = json.load(open(me))
         e["property_id"] = pid
         e.setdefault("quick_cmd", "./check %s --tier quick" % pid)
@@ -21,7 +21,7 @@ for p in props:
     else:
         na.append({"property_id": pid, "reason": old_na.get(pid, "check not built yet (work in progress; will be claimed)")})
     ff = os.path.join(d, "findings.json")
-    if os.path.exists(ff):
+    if os.path.exists(ff) and os.path.exists(os.path.join(d, "READY")):
         findings += json.load(open(ff))["findings"]
 m["checks"] = checks
 m["not_applicable"] = na
